@@ -13,7 +13,8 @@ axis-disjoint.  Not decided: the remaining index arithmetic of the individual _a
 import ast
 
 from sa import AnalysisError
-from sa.astutil import dotted, src, stmt_text, params, find_stmts, calls_in, method_name, const
+from sa.pattern import pmatch, pfind
+from sa.astutil import dotted, src, stmt_text, params, find_stmts, calls_in, method_name, const, deep_resolved
 from sa.algebra import Poly, Unsupported
 from sa.flatindex import Exec, Inexact, row_major, symbols, product
 
@@ -178,13 +179,17 @@ def run(model, rep, tier):
     ok3 = ok and any(src(s.value.elts[0]) == fi for s in ind)
     rep.ob('R05.1', f.key, f.where(ind[0]) if ind else f.where(), ok3, 'the returned indices are unravelled from the unique flat index' if ok3 else
            'the returned indices do not start from the first result of unique(): duplicates and unsorted tuples are handed out', statement='indices-from-unique')
-    vals = [s for s in find_stmts(f.body, lambda s: isinstance(s, ast.Assign)) if src(s.targets[0]) == 'values' and 'Inflate(' in src(s.value)]
-    ok4 = ok and len(vals) == 1 and f'Take({inv}, s)' in src(vals[0].value) and f'{fi}.shape[0]' in src(vals[0].value) and 'util.sum(' in src(vals[0].value) and 'zip(value_parts, slices)' in src(vals[0].value)
+    # matched structurally on what the expression denotes (local names bound once are read as their right-hand sides): every part f is inflated over
+    # its own slice s of THE inverse map to the length of THE unique index, and the slices are Range(length_k) + (sum of the lengths before k)
+    vals = [s for s in find_stmts(f.body, lambda s: isinstance(s, ast.Assign)) if src(s.targets[0]) == 'values' and 'Inflate(' in src(deep_resolved(f.node, s.value))]
+    m = pmatch('util.sum((Inflate(F_, Take(INV_, S_), FI_.shape[0]) for F_, S_ in zip(value_parts, SL_)))', deep_resolved(f.node, vals[0].value)) if len(vals) == 1 else None
+    call = src(u[0].value)
+    ok4 = ok and m is not None and src(m['INV_']) in (inv, f'{call}[1]') and src(m['FI_']) in (fi, f'{call}[0]')
     rep.ob('R05.1', f.key, f.where(vals[0]) if vals else f.where(), ok4, 'values of equal index tuples are summed by inflating every part over the inverse map' if ok4 else
            'the values are not inflated over the inverse of the same unique() call: values and indices no longer correspond', statement='values-over-inverse')
-    sl = [s for s in find_stmts(f.body, lambda s: isinstance(s, ast.Assign)) if src(s.targets[0]) == 'slices']
-    ok5 = len(sl) == 1 and src(sl[0].value).replace(' ', '') == '[Range(length)+offsetforlength,offsetinzip(lengths,util.cumsum(lengths))]'
-    rep.ob('R05.1', f.key, f.where(sl[0]) if sl else f.where(), ok5, 'each part addresses its own slice of the inverse map (offsets = cumulative lengths)' if ok5 else 'the per-part slices of the inverse map changed', statement='part-slices')
+    m2 = pmatch('[Range(L_) + O_ for L_, O_ in zip(LEN_, util.cumsum(LEN_))]', m['SL_']) if m is not None else None
+    ok5 = m2 is not None and pmatch('[A_.shape[0] for A_ in value_parts]', m2['LEN_']) is not None
+    rep.ob('R05.1', f.key, f.where(vals[0]) if vals else f.where(), ok5, 'each part addresses its own slice of the inverse map (offsets = cumulative lengths)' if ok5 else 'the per-part slices of the inverse map changed', statement='part-slices')
     # R05.2: ravel and unravel, executed symbolically for 1..4 axes (sa/flatindex.py)
     outer = [l for l in ast.walk(f.node) if isinstance(l, ast.For) and src(l.iter) == 'self._assparse']
     fl = [l for o in outer for l in o.body if isinstance(l, ast.For)]
@@ -224,10 +229,20 @@ def run(model, rep, tier):
     # R05.3
     uq = model.func('evaluable:unique')
     t = src(uq.node)
-    want = ['sorter = ArgSort(array)', 'mask = UniqueMask(Take(array, sorter))', 'index = Take(sorter, Find(mask))', 'unique = Take(array, index)', 'inverse = UniqueInverse(mask, sorter)']
-    missing = [w for w in want if w not in t]
+    # what unique() returns, in terms of its argument (sa.pattern on the resolved return expression): sort, mark first occurrences of the SORTED
+    # array, gather through the SAME sorter, inverse from the SAME mask and sorter
+    rets = find_stmts(uq.body, lambda s_: isinstance(s_, ast.Return) and s_.value is not None)
+    m = pmatch('(U_, I_, V_)[SEL_]', deep_resolved(uq.node, rets[-1].value)) if rets else None
+    missing = ['return (unique, index, inverse)[...]'] if m is None else []
+    if m is not None:
+        if pmatch('Take(array, Take(ArgSort(array), Find(UniqueMask(Take(array, ArgSort(array))))))', m['U_']) is None:
+            missing.append('unique = Take(array, Take(sorter, Find(mask)))')
+        if pmatch('Take(ArgSort(array), Find(UniqueMask(Take(array, ArgSort(array)))))', m['I_']) is None:
+            missing.append('index = Take(sorter, Find(mask))')
+        if pmatch('UniqueInverse(UniqueMask(Take(array, ArgSort(array))), ArgSort(array))', m['V_']) is None:
+            missing.append('inverse = UniqueInverse(mask, sorter)')
     rep.ob('R05.3', uq.key, uq.where(), not missing, 'unique() = sort, mark first occurrences, gather, inverse through the same sorter and mask' if not missing else f'unique(): {missing} changed', statement='unique-wiring')
-    ok = '(unique, index, inverse)[slice(0, 2 + return_inverse, 2 - return_index) if return_inverse or return_index else 0]' in t
+    ok = m is not None and src(m['SEL_']) == 'slice(0, 2 + return_inverse, 2 - return_index) if return_inverse or return_index else 0'
     rep.ob('R05.3', uq.key, uq.where(), ok, 'the result selection returns (unique, inverse) for return_inverse only' if ok else 'the result selection of unique() changed', statement='unique-selection')
     # R05.4
     ac = model.func('evaluable:as_csr')
